@@ -5,6 +5,7 @@ connection-variable part of C07 (activeness/imputation contract), which rides on
 Per (encoder factory, imputer, settings, existence pattern with >= 1 valid matrix): a vector of n+e fresh unbounded
 symbolic integers is pushed through the real `manager.get_matrix(vector, existence=pattern)`.
 """
+import os
 import copy
 import itertools
 import random
@@ -255,6 +256,21 @@ def instances(tier, seed):
                 for s in named:
                     if 'undecodable vectors' in (s.get('name') or '') or 'non-contiguous degree list' in (s.get('name') or ''):
                         add(spool.index(s), s, kind, i_enc, 0)
+    # interference pairs: every factory with three named settings and their variants (quick), six (thorough)
+    small_named = [s_ for s_ in named if len(s_['src'])*len(s_['tgt']) <= 4]
+    for f_idx, (kind, i_enc, _) in enumerate(facs):
+        for t in range(len(small_named) if kind == 'pattern' else (3 if tier == 'quick' else 8)):
+            # (pattern encoders reject most settings at once: all small named settings are offered to them)
+            s_ = small_named[t] if kind == 'pattern' else small_named[(f_idx*7+t*5) % len(small_named)]
+            if kind == 'pattern':
+                s_ = dict(s_)
+                s_['patterns'] = _simple_patterns(s_)[:1]
+            else:
+                s_ = dict(s_)
+                s_['patterns'] = s_['patterns'][:3]
+            for what, b in _variant_pairs(s_):
+                out.append(dict(label=f'interference {kind}{i_enc} | {pool.settings_label(s_)} | {what}', c10_kind='interference',
+                                s=s_, b=b, what=what, kind=kind, i_enc=i_enc, i_imp=default_imputer_idx(kind)))
     seen, uniq = set(), []
     for i_ in out:
         if i_['label'] not in seen:
@@ -326,7 +342,118 @@ def is_marker(m, ns, nt):
     return a.shape == (ns, nt) and a.size > 0 and bool(np.all(a == -1))
 
 
+# ---------------------------------------------------------------------------------------------------------------------
+# interference between problems (AUXILIARY, concrete): what a manager returns for settings B must not depend on
+# settings A having been encoded before in the same cache, on another manager being alive, or on the encoder object
+# having served other settings before
+
+
+def _variant_pairs(s):
+    import copy
+    out = []
+    for side in ('src', 'tgt'):
+        b = copy.deepcopy(s)
+        b[side][0]['rep'] = not b[side][0]['rep']
+        out.append((f'{side}0 repeatability flipped', b))
+    for side in ('src', 'tgt'):
+        c0 = s[side][0]
+        b = copy.deepcopy(s)
+        if c0['conns'] is not None:
+            b[side][0] = dict(conns=None, min=min(c0['conns']), rep=c0['rep'])
+        else:
+            b[side][0] = dict(conns=None, min=c0['min']+1, rep=c0['rep'])
+        out.append((f'{side}0 other degrees', b))
+    return out
+
+
+def _decode_all(mgr, exist, n_opts, cap=120):
+    out = []
+    for k_pat, e in enumerate(exist):
+        for v in itertools.islice(itertools.product(*[range(k_) for k_ in n_opts]), cap):
+            try:
+                x, act, m = mgr.get_matrix(list(v), existence=e)
+                out.append((k_pat, list(v), [int(t) for t in x], [bool(t) for t in act], np.array(m).tolist()))
+            except Exception as ex_:  # noqa
+                out.append((k_pat, list(v), f'{type(ex_).__name__}: {ex_}'))
+    try:
+        lst = mgr.get_all_design_vectors()
+        out.append(('listing', sorted((k_, sorted(np.array(lst[e]).tolist())) for k_, e in enumerate(exist) if e in lst)))
+    except Exception as ex_:  # noqa
+        out.append(('listing', f'{type(ex_).__name__}: {ex_}'))
+    return out
+
+
+def _run_interference(inst):
+    from adsg_core.optimization.assign_enc.patterns.encoder import InvalidPatternEncoder
+    from adsg_core.optimization.assign_enc.encoding import DetectedHighImpRatio
+    a, b, kind, i_enc, i_imp = inst['s'], inst['b'], inst['kind'], inst['i_enc'], inst['i_imp']
+    res = new_result(inst['label'])
+    old = os.environ.get('XDG_CACHE_HOME')
+
+    def build(s_):
+        st, ex = pool.to_settings(s_)
+        mgr, enc = build_manager(kind, i_enc, i_imp, st)
+        return mgr, enc, ex, [dv.n_opts for dv in mgr.design_vars]
+
+    def diff(x, y):
+        for u, v in zip(x, y):
+            if u != v:
+                return dict(got=str(u)[:300], fresh=str(v)[:300])
+        return dict(len=[len(x), len(y)])
+    try:
+        try:
+            isolate_cache()
+            mgr, enc, ex_b, nb = build(b)
+            if len(nb) > MAX_DV or int(np.prod(nb, dtype=float)) > 600:
+                res['notes'].append('too many declared vectors: skipped')
+                return res
+            ref_b = _decode_all(mgr, ex_b, nb)
+            isolate_cache()
+            mgr_a, enc_a, ex_a, na = build(a)
+            ref_a = _decode_all(mgr_a, ex_a, na)
+        except (InvalidPatternEncoder, DetectedHighImpRatio, RuntimeError) as e:
+            res['notes'].append(f'{type(e).__name__}: the encoder does not take both settings (skipped)')
+            return res
+        cfg = dict(kind=kind, i_enc=i_enc, i_imp=i_imp, first=s_plain(a), second=s_plain(b), what=inst['what'])
+
+        def check(what, got, ref):
+            res['obligations'] += 1
+            res['validated'] += 1
+            if got != ref:
+                res['status'] = VIOLATION
+                res['violations'].append(violation_record(
+                    PROP, 'interference', dict(kind=f'interference:{what}', encoder=f'{kind}{i_enc}', variant=inst['what'],
+                                               settings=pool.settings_label(b)), cfg, None, diff(got, ref),
+                    'the same as on a fresh encoder in a fresh cache', replay_args=dict(check='interference', config=cfg)))
+            else:
+                res['discharged'] += 1
+        # (1) A then B in the same cache (still the cache of the A run)
+        mgr_b, enc_b, ex_b2, nb2 = build(b)
+        check('other settings encoded before in the same cache', _decode_all(mgr_b, ex_b2, nb2), ref_b)
+        # (2) manager A used again while manager B is alive
+        check('another manager alive', _decode_all(mgr_a, ex_a, na), ref_a)
+        # (3) the encoder object of A serves B
+        isolate_cache()
+        mgr_a2, enc_a2, _, _ = build(a)
+        _decode_all(mgr_a2, ex_a, na)
+        st_b, ex_b3 = pool.to_settings(b)
+        try:
+            mgr_b3 = type(mgr_a2)(st_b, enc_a2)
+            got3 = _decode_all(mgr_b3, ex_b3, [dv.n_opts for dv in mgr_b3.design_vars])
+        except Exception as e:  # noqa
+            got3 = [f'{type(e).__name__}: {e}']
+        check('encoder object reused for other settings', got3, ref_b)
+    finally:
+        if old is not None:
+            os.environ['XDG_CACHE_HOME'] = old
+    res['paths'] = 3
+    res['sample'] = dict(harness='interference (auxiliary, concrete)', variant=inst['what'])
+    return res
+
+
 def run_instance(inst, tier='quick', seed=0):
+    if inst.get('c10_kind') == 'interference':
+        return _run_interference(inst)
     from adsg_core.optimization.assign_enc.patterns.encoder import InvalidPatternEncoder
     from adsg_core.optimization.assign_enc.encoding import DetectedHighImpRatio
     s, kind, i_enc, i_imp = inst['s'], inst['kind'], inst['i_enc'], inst['i_imp']
@@ -694,6 +821,13 @@ def _restore(s):
 
 def replay(rec):
     a = rec['replay_args']
+    if a.get('check') == 'interference':
+        cfg = a['config']
+        r2 = _run_interference(dict(label='replay', s=_restore(cfg['first']), b=_restore(cfg['second']), what=cfg['what'],
+                                    kind=cfg['kind'], i_enc=cfg['i_enc'], i_imp=cfg['i_imp']))
+        for v in r2['violations']:
+            print(v['signature']['kind'], v['observed'])
+        return bool(r2['violations'])
     cfg, inp = a['config'], a['inputs'] or {}
     s = _restore(cfg['settings'])
     kind, i_enc, i_imp = cfg['kind'], cfg['i_enc'], cfg['i_imp']
